@@ -1,6 +1,15 @@
 """Contracts for pynetdicom2/dulprovider.py (C03, C05, C12, C13)."""
 from pyvc.contracts import contract
 
+# DULServiceProvider.run -- `while not self.is_killed`: the event loop.  Invariant (C03): at most one
+# event is pending and, if one is, the primitive stored with it is still the current primitive.  The
+# havoc statement puts the provider into an arbitrary state that satisfies it (pyvc/props/c03.py).
+r = contract('dulprovider.DULServiceProvider.run')
+r.prop('C03')
+rl = r.loop('', 0)
+rl.havoc_stmts = ['c03_havoc(self)']
+rl.invariants = [('one-event-at-a-time-with-its-primitive', 'c03_inv(self)')]
+
 # DIMSEDecoder.process as seen by the robustness property: pydicom may raise anything on
 # undecodable input, unknown command fields raise KeyError, empty PDVs IndexError ...: the callers
 # (DT-2 / AR-6) must survive every Exception.
